@@ -1,61 +1,36 @@
+// Command c04 replays the C04 cases (Compile-call histories, gated schedules,
+// time programs) against the real code and runs the free-running stress test.
+//
+//	c04 hist  cases.ndjson obs.ndjson
+//	c04 sched cases.ndjson obs.ndjson
+//	c04 time  cases.ndjson obs.ndjson
+//	c04 stress <config.json> trace.ndjson        (binary built with -race)
 package main
 
 import (
-	"fmt"
-	"time"
+	"os"
 
-	"github.com/verily-src/fhirpath-go/fhirpath"
-	"github.com/verily-src/fhirpath-go/fhirpath/compopts"
-	"github.com/verily-src/fhirpath-go/fhirpath/evalopts"
-	"github.com/verily-src/fhirpath-go/fhirpath/internal/expr"
-	"github.com/verily-src/fhirpath-go/fhirpath/internal/funcs"
-	"github.com/verily-src/fhirpath-go/fhirpath/patch"
-	"github.com/verily-src/fhirpath-go/fhirpath/system"
 	"github.com/verily-src/fhirpath-go/fhirpath/zzverif/lib"
 )
 
 func main() {
-	p := lib.LoadModelResource("MR1")
-	res := lib.AsResources(p)
-	forest, _ := lib.NewForest(p)
-	vf := func(in system.Collection) (system.Collection, error) { return system.Collection{system.Integer(7)}, nil }
-	emit := func(in system.Collection, a, b, c any) (system.Collection, error) { return system.Collection{a, b, c}, nil }
-	gate := func(in system.Collection, id system.Integer, k system.Integer) (system.Collection, error) {
-		fmt.Println("gate", id, k, len(in))
-		return system.Collection{k}, nil
+	if len(os.Args) != 4 {
+		lib.Fatal("usage: c04 hist|sched|time|stress <in> <out>")
 	}
-	try := func(src string, co []fhirpath.CompileOption, eo ...fhirpath.EvaluateOption) {
-		fmt.Printf("%-60s %v\n", src, lib.EvalOutcome(forest, src, res, co, eo))
+	switch os.Args[1] {
+	case "hist":
+		runHist(os.Args[2], os.Args[3])
+	case "sched":
+		runSched(os.Args[2], os.Args[3])
+	case "time":
+		runTime(os.Args[2], os.Args[3])
+	case "timechild":
+		runTimeChild(os.Args[2], os.Args[3])
+	case "stress":
+		runStress(os.Args[2], os.Args[3])
+	case "stresschild":
+		runStressChild(os.Args[2], os.Args[3])
+	default:
+		lib.Fatal("unknown subcommand %q", os.Args[1])
 	}
-	try("exists()", nil)
-	try("join()", nil)
-	try("join()", []fhirpath.CompileOption{compopts.WithExperimentalFuncs()})
-	try("vfA()", nil)
-	try("vfA()", []fhirpath.CompileOption{compopts.AddFunction("vfA", vf)})
-	try("join()", []fhirpath.CompileOption{compopts.AddFunction("join", vf), compopts.WithExperimentalFuncs()})
-	try("join()", []fhirpath.CompileOption{compopts.WithExperimentalFuncs(), compopts.AddFunction("join", vf)})
-	try("exists()", []fhirpath.CompileOption{compopts.AddFunction("exists", vf)})
-	try("Patient.bogus", nil)
-	try("Patient.bogus", []fhirpath.CompileOption{compopts.Permissive()})
-	try("1", []fhirpath.CompileOption{compopts.Transform(func(e expr.Expression) expr.Expression { return e }), compopts.Transform(func(e expr.Expression) expr.Expression { return e })})
-	_, err := patch.Compile("Patient.name", compopts.Transform(func(e expr.Expression) expr.Expression { return e }))
-	fmt.Println("patch+transform:", err)
-	_, err = patch.Compile("Patient.vfA()", compopts.AddFunction("vfA", vf))
-	fmt.Println("patch+add:", err)
-	t0 := time.Date(2024, 2, 29, 23, 59, 58, 123000000, time.FixedZone("x", 19800))
-	co := []fhirpath.CompileOption{compopts.AddFunction("emit", emit), compopts.AddFunction("gate", gate)}
-	try("emit(gate(%id, 1), now(), %x)", co, evalopts.EnvVariable("id", system.Integer(2)), evalopts.EnvVariable("x", system.Integer(5)), evalopts.OverrideTime(t0))
-	try("emit(today(), timeOfDay(), %context.name.given.count())", co, evalopts.OverrideTime(t0))
-	try("emit(today(), timeOfDay(), now())", co)
-	try("Patient.name.where(gate(%id,1) = 1 and given.count() = %x).family & '/' & gate(%id,2).toString() & %x.toString()", co, evalopts.EnvVariable("id", system.Integer(2)), evalopts.EnvVariable("x", system.Integer(1)))
-	try("Patient.id", co)
-	try("%context.id", co)
-	try("now().toString()", co, evalopts.OverrideTime(t0))
-	try("now() = now()", co)
-	try("today().toString() & timeOfDay().toString()", co, evalopts.OverrideTime(t0))
-	ks := 0
-	for range funcs.Clone() {
-		ks++
-	}
-	fmt.Println("clone keys", ks)
 }
